@@ -15,6 +15,7 @@ from common import fx, unfx, rq, enc_list, close
 from props.c05 import ref_fit, allclose, fxs, bits, unf_opt, guard, frame_hash, mixed_dataset, relabel, plan_prob
 
 REQUIRED = ['numer_order_free', 'cond_const_eq_uncond', 'stoch_iptw_const_eq_uncond', 'stoch_iptw_order_free', 'mc_assign_order_free', 'gf_assign_order_free', 'p_one_zero',
+            'gf_assign_empty_condition', 'gf_assign_iff_drawn',
             'gf_p_one_zero', 'tmle_mc_degenerate', 'stoch_iptw_mixture', 'mc_mixture_realised', 'mc_average_mixture',
             'tmle_eps_zero',
             # ties to the source (Props/C14_Gen, C14_GfStoch): generated definitions = the model
@@ -24,7 +25,10 @@ REQUIRED = ['numer_order_free', 'cond_const_eq_uncond', 'stoch_iptw_const_eq_unc
 RULE = ('categorical data sets (1-3 covariates of arity 2-4, <= 12 strata, positivity by construction; binary / normal '
         'outcomes) with saturated models, and mixed data sets (categorical + continuous predictors) with non-saturated '
         'models; plans: unconditional p on the grid {0, .2, .5, .75, 1}, and 2-4 exclusive exhaustive conditions over the '
-        'covariates (written over `df` / `g` as each class evaluates them) with random probabilities (incl. all-0 and '
+        'covariates (written over `df` / `g` as each class evaluates them), condition sets in which one condition is '
+        'met by nobody in the data (a level absent from the sample), condition sets that refer to the observed treatment '
+        '(alone and crossed with a covariate: keep a share of the treated, start a share of the untreated; [1,0] = the '
+        'natural course), with random probabilities (incl. all-0 and '
         'all-1, and all-equal p) listed in EVERY order (all permutations), as the complementary strings of a two-cell partition, and '
         'as a one-pair listing selecting everybody; StochasticTMLE with custom stratum-proportion learners for the treatment / '
         'outcome / both models; frequency weights differing between arms within strata (StochasticIPTW); missing outcomes x '
@@ -98,6 +102,39 @@ def cond_sets(df, covs, rng, who):
     return out
 
 
+def cond_sets_r4(df, covs, rng, who):
+    """[(tag, conditions)]: exclusive exhaustive condition sets of two kinds the plain sets do not contain --
+    'empty': one of the conditions is met by nobody in this data set (a covariate level absent from the sample, placed at
+    a random position of the listing; every listing order is tried by the cells anyway);
+    'treat': the conditions refer to the OBSERVED treatment (keep a share of the treated on treatment, start a share of the
+    untreated: an intervention that depends on the natural value of treatment), alone and crossed with a covariate"""
+    c0 = covs[0]
+    lv = sorted(df[c0].unique())
+    absent = int(max(lv)) + 1 + int(rng.integers(0, 3))
+    per_level = ["%s['%s']==%d" % (who, c0, v) for v in lv[:2]]
+    if len(lv) > 2:
+        per_level[1] = "%s['%s']>=%d" % (who, c0, lv[1])
+    k = int(rng.integers(0, len(per_level) + 1))
+    empty = per_level[:k] + ["%s['%s']==%d" % (who, c0, absent)] + per_level[k:]
+    a1, a0 = "%s['A']==1" % who, "%s['A']==0" % who
+    crossed = ["(%s) & (%s['%s']==%d)" % (a1, who, c0, lv[0]), "(%s) & (%s['%s']!=%d)" % (a1, who, c0, lv[0]), a0]
+    if rng.uniform() < 0.5:
+        crossed = [a1, "(%s) & (%s['%s']==%d)" % (a0, who, c0, lv[0]), "(%s) & (%s['%s']!=%d)" % (a0, who, c0, lv[0])]
+    return [('empty', empty), ('treat', [a1, a0]), ('treat', crossed)]
+
+
+def plan_excludes_everyone(df, p, conds):
+    """the plan gives the treatment each row actually received probability 0 (possible only when the conditions refer to
+    the observed treatment, e.g. `treated -> 0, untreated -> 1`): every inverse-probability weight is 0 and the weighted
+    mean / the weighted targeting fit do not exist.  The simulating g-formula has no such restriction."""
+    pi = plan_prob(df, p, conds)
+    return bool(np.all(np.where(df['A'].values == 1, pi, 1 - pi) == 0))
+
+
+def refers_to_treatment(conds):
+    return conds is not None and any("['A']" in c for c in conds)
+
+
 def masks_of(df, conds):
     return [np.asarray(eval(c, {'df': df, 'g': df, 'np': np}), dtype=bool) for c in conds]
 
@@ -121,6 +158,7 @@ class Tap:
         self.m, self.replay, self.perm, self.calls = m, replay, perm, []
         self._choice, self._binom = np.random.choice, np.random.binomial
         self.assign = []       # treatment column of every frame handed to the outcome model's predict (one per resample)
+        self.unknown_pools = 0  # replaying: draws asked for from a set of rows no condition of the original listing selected
 
     def __enter__(self):
         import statsmodels.base.model as bm
@@ -145,8 +183,13 @@ class Tap:
         k = len(self.calls)
         if self.replay is None:
             res = self._choice(a, size=size, replace=replace, p=p)
-        else:
+        elif (k // self.m, pool) in self.replay:
             res = np.array(self.replay[(k // self.m, pool)], dtype=int)
+        else:
+            # the same conditions in another order must select the same sets of rows; if they do not there is no recorded
+            # draw to attach: counted (the caller fails the order-freeness predicate) and drawn afresh
+            self.unknown_pools += 1
+            res = self._choice(a, size=size, replace=replace, p=p)
         self.calls.append({'pool': pool, 'size': int(size), 'res': [int(v) for v in res], 'replace': replace})
         return res
 
@@ -212,6 +255,9 @@ def siptw_cell(chk, drv, df, cfg, rec):
     covs, model, p, conds, sat, wcol = cfg['covs'], cfg['model'], cfg['p'], cfg['conditional'], cfg['saturated'], cfg['weights']
     cols = [c for c in df.columns if c != 'w' or wcol]
     case = {'kind': 'StochasticIPTW', 'cfg': cfg, 'data': rec}
+    if plan_excludes_everyone(df, p, conds):
+        chk.count('SIPTW/plan gives the treatment received probability 0 in every row (weights all zero: no estimate exists)')
+        return
     base = siptw_fit(df, cols, model, p, conds, wcol)
     nontriv = conds is not None and len(set(p)) > 1
     chk.case(case, (frame_hash(df), 'SIPTW', repr(p), repr(conds), wcol) if (nontriv or sat) else None,
@@ -318,6 +364,10 @@ def gf_cell(chk, drv, df, cfg, rec):
     case = {'kind': 'TimeFixedGFormula.fit_stochastic', 'cfg': cfg, 'data': rec}
     m = 1 if conds is None else len(conds)
     tap = Tap(m)
+    if conds is not None:
+        chk.count('GF/%sconditions: %s%s' % ('weights/' if wcol else '',
+                                            'on the observed treatment' if refers_to_treatment(conds) else 'on covariates',
+                                            ', one met by nobody' if any(not mk.any() for mk in masks_of(df, conds)) else ''))
     base, gobj = gf_fit_w(df, cols, model, ytype, tgt, p, conds, samples, seed, tap, pm=pm)
     nontriv = conds is not None and len(set(p)) > 1
     chk.case(case, (frame_hash(df), 'GF', repr(p), repr(conds), tgt, samples, seed) if (nontriv or sat) else None,
@@ -377,14 +427,18 @@ def gf_cell(chk, drv, df, cfg, rec):
     if conds is not None and draws_ok:
         store = {(k // m, c['pool']): c['res'] for k, c in enumerate(tap.calls)}
         for perm in perms_of(m, chk.tier):
+            tp = Tap(m, replay=store)
             got, _ = gf_fit_w(df, cols, model, ytype, tgt, [p[i] for i in perm], [conds[i] for i in perm], samples, seed,
-                            Tap(m, replay=store), pm=pm)
-            chk.d(close(got, base, **TOLX), 'stochastic g-formula: listing order of the (condition, p) pairs changes '
-                  'nothing (draws attached to their conditions)', dict(case, order=list(perm), permuted=got))
+                            tp, pm=pm)
+            chk.d(tp.unknown_pools == 0 and close(got, base, **TOLX), 'stochastic g-formula: listing order of the '
+                  '(condition, p) pairs changes nothing (each condition selects the same rows; draws attached to their '
+                  'conditions)', dict(case, order=list(perm), permuted=got, draws_from_unknown_row_sets=tp.unknown_pools))
         if m == 2:
-            got, _ = gf_fit_w(df, cols, model, ytype, tgt, p, complement_listing(conds), samples, seed, Tap(m, replay=store), pm=pm)
-            chk.d(close(got, base, **TOLX), 'stochastic g-formula: the same partition written with the complementary '
-                  'condition strings gives the same estimate', dict(case, complementary=got))
+            tp = Tap(m, replay=store)
+            got, _ = gf_fit_w(df, cols, model, ytype, tgt, p, complement_listing(conds), samples, seed, tp, pm=pm)
+            chk.d(tp.unknown_pools == 0 and close(got, base, **TOLX), 'stochastic g-formula: the same partition written '
+                  'with the complementary condition strings gives the same estimate',
+                  dict(case, complementary=got, draws_from_unknown_row_sets=tp.unknown_pools))
     # D: degenerate plans
     pi = plan_prob(df, p, conds)
     if np.all(pi == 1.0) or np.all(pi == 0.0):
@@ -469,8 +523,27 @@ def stmle_cell(chk, drv, df, cfg, rec):
     case = {'kind': 'StochasticTMLE', 'cfg': cfg, 'data': rec}
     m = 1 if conds is None else len(conds)
     tap = Tap(m)
+    if plan_excludes_everyone(df, p, conds):
+        chk.count('STMLE/plan gives the treatment received probability 0 in every row (clever covariate all zero: no '
+                  'targeting fit exists)')
+        return
     t = stmle_fit(df, cols, gmodel, qmodel, p, conds, samples, seed, tap)
     base, eps, mv = float(t.marginal_outcome), float(t.epsilon), np.asarray(t.marginals_vector, dtype=float)
+    if conds is not None:
+        chk.count('STMLE/conditions: %s%s' % ('on the observed treatment' if refers_to_treatment(conds) else 'on covariates',
+                                             ', one met by nobody' if any(not mk.any() for mk in masks_of(df, conds)) else ''))
+    if refers_to_treatment(conds):
+        # the plan gives every row a probability (the conditions are exclusive and exhaustive on the OBSERVED data), so
+        # every resample must hand the outcome model a 0/1 treatment for every row and the estimate is a number
+        ok = np.isfinite(base) and len(tap.assign) == samples and \
+            all(len(a) == len(df) and set(np.unique(a)) <= {0.0, 1.0} for a in tap.assign)
+        chk.d(ok, 'StochasticTMLE: conditions that refer to the observed treatment are evaluated on the observed data (every '
+              'resample assigns 0/1 to every row; the estimate is a number)',
+              dict(case, impl={'marginal': base, 'epsilon': eps},
+                   rows_without_assignment=[int(np.isnan(a).sum()) for a in tap.assign[:3]]))
+        if not ok:
+            chk.case(case, None)
+            return
     nontriv = conds is not None and len(set(p)) > 1
     chk.case(case, (frame_hash(df), 'STMLE', repr(p), repr(conds), samples, seed) if (nontriv or sat) else None,
              sample={'kind': 'StochasticTMLE', 'p': p, 'conditional': conds, 'samples': samples, 'n': len(df)}
@@ -796,6 +869,14 @@ def plans_for(df, covs, rng, who):
             out.append(([0.3] * len(cs), cs))
             mixed = [float(v) for v in rng.choice([0.0, 1.0, 0.5], size=len(cs))]
             out.append((mixed, cs))
+    for i, (tag, cs) in enumerate(cond_sets_r4(df, covs, rng, who)):
+        out.append(([float(v) for v in np.round(rng.uniform(0.05, 0.95, size=len(cs)), 2)], cs))
+        if tag == 'empty':
+            out.append(([1.0] * len(cs), cs))                              # = treat-all although one stratum is empty
+        elif i == 1:
+            out.append(([1.0, 0.0], cs))                                    # = the natural course
+        else:
+            out.append(([float(v) for v in rng.choice([0.0, 1.0], size=len(cs))], cs))
     return out
 
 
@@ -863,6 +944,8 @@ def run(chk, drv, rng, tier):
         alt = [float(k % 2) for k in range(len(cs))]
         plans = [(1.0, None), (0.0, None), (0.4, None), (alt, cs), ([1.0 - v for v in alt], cs), ([1.0] * len(cs), cs),
                  ([float(v) for v in np.round(rng.uniform(0.2, 0.8, size=len(cs)), 2)], cs)]
+        for tag, c4 in cond_sets_r4(df, covs, rng, 'g')[:2]:
+            plans.append(([float(v) for v in np.round(rng.uniform(0.2, 0.8, size=len(c4)), 2)], c4))
         for pm in (False, True):
             for k, (p, c) in enumerate(plans):
                 t += 1
@@ -880,6 +963,8 @@ def run(chk, drv, rng, tier):
         cs = cond_sets(df, covs, rng, 'g')[0]
         plans = [(1.0, None), (0.0, None), (0.6, None), ([float(k % 2) for k in range(len(cs))], cs),
                  ([float(v) for v in np.round(rng.uniform(0.2, 0.8, size=len(cs)), 2)], cs)]
+        for tag, c4 in cond_sets_r4(df, covs, rng, 'g')[:2]:
+            plans.append(([float(v) for v in np.round(rng.uniform(0.2, 0.8, size=len(c4)), 2)], c4))
         for k, (p, c) in enumerate(plans):
             for pm in ((True, False) if df['Y'].isna().any() else (True,)):
                 t += 1
@@ -908,6 +993,12 @@ def run(chk, drv, rng, tier):
             plans.append(([0.8] * 2, css[1]))
             plans.append((0.5, None, 5))
             plans.append(([float(v) for v in np.round(rng.uniform(0.3, 0.7, size=2), 2)], css[1], 5))
+            # a condition nobody meets; conditions on the observed treatment (crossed with a continuous predictor)
+            plans.append(([float(v) for v in np.round(rng.uniform(0.05, 0.95, size=3), 2)],
+                          ["%s['x']>0.5" % who, "%s['x']>1e6" % who, "%s['x']<=0.5" % who]))
+            plans.append(([float(v) for v in np.round(rng.uniform(0.05, 0.95, size=3), 2)],
+                          ["(%s['A']==1) & (%s['x']>0)" % (who, who), "(%s['A']==1) & (%s['x']<=0)" % (who, who),
+                           "%s['A']==0" % who]))
             for pl in plans:
                 p, cs = pl[0], pl[1]
                 t += 1
@@ -959,7 +1050,7 @@ def replay(rec):
               'StochasticTMLE-custom': stmle_custom_cell, 'StochasticTMLE-history': stmle_history_cell,
               'history-IPTW-GF': light_history_cell}[c['kind']]
         with common.quiet():
-            fn(chk, None, df, c['cfg'], data)
+            guard(chk, c['kind'], c['cfg'], data, fn, None, df, c['cfg'], data)     # as in run(): an exception is a failure
     for f in chk.d_fail:
         print('  FAILS:', f['what'], f['case'].get('order'))
     print('failures reproduced:', len(chk.d_fail))
